@@ -177,6 +177,11 @@ def runMemOp' (op : String) (p spare : Nat) (data : Bytes) (a : List String) : O
     let (h, k) := mkXKey p spare data (isPriv == "1")
     let r := xkeyString mpr h k
     some (okLine r.heap (agree (some r.val) (some (Bip32.toString mpr (k.value h))) mhx))
+  | "mem.xkaddr", [isPriv, id] => do
+    let id ← id.toNat?
+    let (h, k) := mkXKey p spare data (isPriv == "1")
+    let r := xkeyAddress mpr h k (UInt8.ofNat id)
+    pure (okLine r.heap (agree (some r.val) (some (Bip32.address mpr (k.value h) (UInt8.ofNat id))) mhx))
   | "mem.xkchild", [isPriv, i] => do
     let i ← i.toNat?
     let (h, k) := mkXKey p spare data (isPriv == "1")
